@@ -934,7 +934,18 @@ def r7_framework_errors_use_endpoint_error_type(ctx):
             ctx.check(R, "to_result-error-via-endpoint-type:%s" % root.id.split(" as ")[-1].replace(">::handle_request", ""), via_endpoint_type and sl_ok and n_conv >= 1,
                       "response.to_result() failure is converted with <ErrorType as From<HttpError>>::from before HandlerError::from: %s" % via_endpoint_type, root)
 
-RULES = [("C07.R7", r7_framework_errors_use_endpoint_error_type), ("C07.R1", r1_type_parameter), ("C07.R2", r2_location), ("C07.R3", r3_content_type), ("C07.R4", r4_response),
+
+def r8_headers_wrapper_keeps_the_response(ctx):
+    """The documented content type of a typed response is the one the JSON serialiser sets (R4); a headers wrapper must add to
+    that response's header map, not replace it.  This is C12.R5 (declared and explicit headers are inserted into the
+    map of the inner response, which is then returned), re-evaluated here because its violation is a C07 violation too
+    (seed C07-C: HttpResponseHeaders::to_result replaced the header map and dropped Content-Type)."""
+    from . import c12
+    from .lib_c01 import Renamed
+    c12.r5_header_order(Renamed(ctx, "C07.R8", "a headers wrapper keeps the inner response (status, body, Content-Type) and only adds headers to it"))
+
+
+RULES = [("C07.R8", r8_headers_wrapper_keeps_the_response), ("C07.R7", r7_framework_errors_use_endpoint_error_type), ("C07.R1", r1_type_parameter), ("C07.R2", r2_location), ("C07.R3", r3_content_type), ("C07.R4", r4_response),
          ("C07.R5", r5_error_schema), ("C07.R6", r6_required)]
 
 A = "dropshot/src/api_description.rs"
